@@ -1,7 +1,7 @@
 """Sidecar contracts for google/openhtf.  One module per property group; nothing in /repo is annotated."""
 import importlib
 
-MODULES = ['c07']
+MODULES = ['_trusted', 'c07']
 
 
 def register_all(reg):
